@@ -136,8 +136,9 @@ theorem source_facts :
     Facts.C11.guessEndCond = "len(dataWithHash)-i < sha1.Size" ∧
     Facts.C11.guessHashSlice = "dataWithHash[:sha1.Size]" ∧
     Facts.C11.guessDataSlice = "dataWithHash[sha1.Size : len(dataWithHash)-i]" ∧
+    Facts.C11.guessHashOf = "sha1.Sum(data)" ∧ Facts.C11.guessCompare = "bytes.Equal(h[:], v)" ∧
     Facts.C11.alignCond = "len(dataWithHash)%cipher.BlockSize() != 0" :=
-  ⟨rfl, rfl, rfl, rfl, rfl, rfl, rfl, rfl, rfl⟩
+  ⟨rfl, rfl, rfl, rfl, rfl, rfl, rfl, rfl, rfl, rfl, rfl⟩
 
 /-- Non-vacuity: a genuine answer is accepted (toy primitives): success is reachable. -/
 example : decryptAnswer Prims.toy (Prims.toy.sha1 [1, 2, 3] ++ [1, 2, 3] ++ List.replicate 9 7)
